@@ -219,16 +219,16 @@ func c15Child(raw json.RawMessage) any {
 	var endOnce sync.Once
 	var endInjected atomic.Bool
 	cl.onOpen = func(vb uint16) {
-		var start uint64
+		var start, snapS, snapE, uuid uint64
 		for _, r := range cl.openLog() {
 			if r.Vb == vb {
-				start = r.Off.SeqNo
+				start, snapS, snapE, uuid = r.Off.SeqNo, r.Snap.StartSeqNo, r.Snap.EndSeqNo, uint64(r.Off.VbUUID)
 			}
 		}
 		mu.Lock()
 		h := high[vb]
 		mu.Unlock()
-		fmt.Printf("OPEN %d %d %d\n", vb, start, h)
+		fmt.Printf("OPEN %d %d %d %d %d %d\n", vb, start, h, snapS, snapE, uuid)
 		if sc.EndDuringOpen > 0 && n >= 2 && vb == uint16(lo+1+(sc.EndDuringOpen-1)%(n-1)) {
 			endOnce.Do(func() {
 				// streams are requested concurrently: wait until the first vBucket's request has been answered
@@ -353,7 +353,7 @@ func c15Exec(sc c15Scenario) string {
 	consumed := 0
 	for _, l := range strings.Split(r.Stdout, "\n") {
 		f := strings.Fields(l)
-		if len(f) == 4 && f[0] == "OPEN" {
+		if len(f) == 7 && f[0] == "OPEN" {
 			vb, _ := strconv.Atoi(f[1])
 			st, _ := strconv.ParseUint(f[2], 10, 64)
 			h, _ := strconv.ParseUint(f[3], 10, 64)
